@@ -1,3 +1,3 @@
-import TlsModel.Proto
-/- driver stub for C17: replaced when the model exists -/
-def main : IO Unit := Tls.protoMain (fun _ => none)
+import TlsModel.ConnDrv
+/- driver for C17: stateful history executor over Tls.Conn (protocol in TlsModel/ConnDrv.lean) -/
+def main : IO Unit := Tls.protoMainS Tls.Conn.handle (Tls.Conn.initWorld true)
